@@ -622,9 +622,9 @@ def shrink_case(case, klass, cfg):
 # driver side
 # ------------------------------------------------------------------------------------------------
 def plan(tier):
-    n = 6000 if tier == "quick" else 200000
+    n = 24000 if tier == "quick" else 600000
     return {"groups": [{"env": {"hashseed": 0}, "indices": list(range(n))}], "n_workers": 16, "chunk": 100 if tier == "quick" else 500,
-            "wall_per_chunk": 600.0, "cfg": {"wall_per_run": 60}}
+            "wall_per_chunk": 600.0, "vacuity": ("lookups", 1.0), "cfg": {"wall_per_run": 60}}
 
 
 def describe(results, agg):
